@@ -67,6 +67,7 @@ def read_files(kind, directory, opts):
                 out[k] = np.asarray(ds[k].values).tolist()
         out["lazy"] = bool(hasattr(ds["st"].data, "dask"))
         out["x"] = ds.x.values.tolist()
+        out["probes"] = {k: np.asarray(ds[k].values, float).tolist() for k in ds.data_vars if k.startswith("probe") and k.endswith("Temperature")}
         if "probe1Temperature" in ds:
             out["probe1"] = np.asarray(ds.probe1Temperature.values).tolist()
         for k in ("userAcquisitionTimeFW", "userAcquisitionTimeBW"):
